@@ -42,7 +42,8 @@ SubRand(i, muts) ==
    sknb |-> RE(SkewNB), skna |-> RE(SkewNA), k |-> RE(CertKeys), e |-> RE(EncKeys), n |-> RE(Nonces), prime |-> RE(BOOLEAN)]
 GenRand(i, signers) ==
   [op |-> "GenCerts", k |-> RE(CertKeys \cup {"kx"}), nid |-> RE(NodeIds \cup {NONE}), order |-> RE(Perms(CertKeys)),
-   nsig |-> RE(signers), hasState |-> RE(BOOLEAN), ssig |-> RE(signers \cup {NONE}), skip |-> RE({FALSE, FALSE, FALSE, TRUE})]
+   nsig |-> RE(signers), hasState |-> RE(BOOLEAN), ssig |-> RE(signers \cup {NONE}), skip |-> RE({FALSE, FALSE, FALSE, TRUE}),
+   reuse |-> RE({FALSE, FALSE, TRUE})]    \* the nonce of the previous request of the history presented again (must not matter)
 RotRand(i, srcs, nonces) ==
   [op |-> "Rotate", k |-> RE(CertKeys), nid |-> RE(NodeIds \cup {NONE}), order |-> RE(Perms(CertKeys)),
    src |-> RE(srcs), which |-> RE({"cur", "cur", "prev"}), k2 |-> RE(CertKeys), e2 |-> RE(EncKeys), n2 |-> RE(nonces),
@@ -62,6 +63,12 @@ OpsOf(cls, s) ==
     [] cls = "Strip"      -> {o \in StripOps : s.nodes[o.k].present}
     [] cls = "Tamper"     -> {o \in TamperOps : Apply(s, o).res # "skip"}
     [] cls = "FetchAuth"  -> AuthSet(s)
+    \* a token fetch made with the skip-storage option
+    [] cls = "FetchSkip"  -> {Merge([TokFetch(k, e, t) EXCEPT !.life = "default"], [skipst |-> TRUE]) :
+                                k \in {RandomElement(CertKeys)}, e \in {RandomElement(EncKeys)}, t \in {x \in Tokens : Live(s.tokens[x])}}
+    \* info sealed with the storage wrapper
+    [] cls = "FetchSW"    -> {Merge(Merge([op |-> "Fetch", k |-> k, e |-> RandomElement(EncKeys), n |-> n, life |-> "default", selfinfo |-> FALSE],
+                                            [ww |-> "SW", wk |-> k, wn |-> n]), NoRewrap) : k \in {RandomElement(CertKeys)}, n \in {RandomElement(Nonces)}}
     [] cls = "FetchRace"  -> {[op |-> "FetchRace", t |-> t, ka |-> RandomElement(CertKeys), kb |-> RandomElement(CertKeys), e |-> RandomElement(EncKeys),
                                be |-> IF CfgRmErr THEN "file" ELSE "inmem"] : t \in {x \in Tokens : Live(s.tokens[x])}}
     [] cls = "FetchNear"  -> NearSet(s)
